@@ -58,9 +58,9 @@ class Vars:
             r = ds[0][3]["r"]
             if not proj:
                 if r["k"] == "use" and r["x"]["k"] in ("copy", "move"):
-                    return self._root_place(r["x"]["p"], depth + 1)
+                    return self._root_place(r["x"]["p"], depth + 1) or ("L", l)
                 if r["k"] == "ref":
-                    return self._root_place(r["p"], depth + 1)
+                    return self._root_place(r["p"], depth + 1) or ("L", l)
             elif len(proj) == 1 and isinstance(proj[0], dict) and "f" in proj[0] and r["k"] == "agg" and r["agg"] == "tuple":
                 f = r["fields"][proj[0]["f"]]
                 if f["k"] in ("copy", "move"):
@@ -200,3 +200,49 @@ def calls_named(body, pred, fb=None):
 
 def where(body, x):
     return x["span"]["at"]
+
+
+def reaches_with_bool(cfg, body, var, start_blocks, start_val, targets, cut_blocks=()):
+    """reachability on the product of the CFG with one boolean local: assignments of constants to the
+    variable are tracked, switches on it follow only the consistent edge; start_val in (True, False, None)"""
+    cut_blocks = set(cut_blocks)
+    targets = set(targets)
+    seen = set()
+    st = [(b, start_val) for b in start_blocks if b not in cut_blocks]
+    while st:
+        b, v = st.pop()
+        if (b, v) in seen:
+            continue
+        seen.add((b, v))
+        if b in targets:
+            return True
+        blk = body.blocks[b]
+        for s in blk["stmts"]:
+            if s["k"] == "assign" and not s["p"]["proj"] and s["p"]["l"] == var:
+                r = s["r"]
+                if r["k"] == "use" and r["x"]["k"] == "const" and "int" in r["x"]:
+                    v = r["x"]["int"] != "0"
+                else:
+                    v = None
+        t = blk["term"]
+        succs = list(cfg.succ[b])
+        if t["k"] == "switch" and t["x"]["k"] in ("copy", "move") and not t["x"]["p"]["proj"] and v is not None:
+            # is the discriminant the variable (possibly through a copy temp)?
+            l = t["x"]["p"]["l"]
+            is_var = l == var
+            if not is_var:
+                for s in blk["stmts"]:
+                    if s["k"] == "assign" and not s["p"]["proj"] and s["p"]["l"] == l and s["r"]["k"] == "use" and s["r"]["x"].get("p", {}).get("l") == var and not s["r"]["x"]["p"]["proj"]:
+                        is_var = True
+            if is_var:
+                want = None
+                for val, bb in t["arms"]:
+                    if (int(val) != 0) == v:
+                        want = bb
+                if want is None:
+                    want = t["otherwise"]
+                succs = [want] if want in succs else []
+        for s2 in succs:
+            if s2 not in cut_blocks:
+                st.append((s2, v))
+    return False
